@@ -23,6 +23,15 @@ impl DynSet {
     }
 }
 impl DynSet {
+    /// the same objects built through their `Default` impls (a public way in that is
+    /// easy to forget)
+    pub fn via_default(set: u8) -> DynSet {
+        if set == 1 {
+            DynSet::S1(ScancodeSet1::default())
+        } else {
+            DynSet::S2(ScancodeSet2::default())
+        }
+    }
     pub fn advance_state(&mut self, code: u8) -> Result<Option<KeyEvent>, Error> {
         match self {
             DynSet::S1(s) => s.advance_state(code),
